@@ -163,6 +163,33 @@ func execC05(t *testing.T, p Plan, src kernel.Source) Result {
 		if ok && r2.Panic == "" {
 			if m := checkRead(r2, writes); m != "" {
 				res.V = &Violation{Prop: "C05", Rule: "torn", Class: "torn:get-after-" + class, Msg: fmt.Sprintf("second read, %s: %s", where, m)}
+				return
+			}
+		}
+		// when every write and the gat carried a lifetime, the key is nothing but a miss once
+		// the longest of them has passed: an add must then succeed and be read back whole
+		// (no remnant of the damaged value may linger and answer for the key)
+		if ttl := p.X["ttl"]; ttl > 0 {
+			w.Advance(secs(max(ttl, 100) + 2))
+			fresh := fullWrite{data: []byte("fresh-after-expiry"), flags: 77}
+			ra, ok := runTask(w, h, wire.Op{Kind: "add", Key: key, Data: fresh.data, Flags: fresh.flags, Opaque: 902}, false)
+			if !ok || ra.Panic != "" {
+				res.V = &Violation{Prop: "C05", Rule: "hang", Class: "hang:add-after-expiry/" + class, Msg: fmt.Sprintf("add after expiry never returned / panicked (%s): %v", where, ra)}
+				return
+			}
+			if ra.Err != nil {
+				res.V = &Violation{Prop: "C05", Rule: "remnant", Class: "remnant:" + class, Msg: fmt.Sprintf("%s; %d s later, after every lifetime given for the key had passed, add answered %v: something of the damaged value still answers for the key", where, max(ttl, 100)+2, ra.Err)}
+				return
+			}
+			r3, ok := runTask(w, h, wire.Op{Kind: "get", Keys: []string{key}, Quiets: []bool{false}, Opaque: 903}, false)
+			if ok && r3.Panic == "" {
+				if len(r3.Hits) != 1 {
+					res.V = &Violation{Prop: "C05", Rule: "remnant", Class: "remnant:get-after-add/" + class, Msg: fmt.Sprintf("%s; after expiry add succeeded but the following get returned %d values", where, len(r3.Hits))}
+					return
+				}
+				if m := checkRead(r3, []fullWrite{fresh}); m != "" {
+					res.V = &Violation{Prop: "C05", Rule: "torn", Class: "torn:get-after-add/" + class, Msg: fmt.Sprintf("%s; after expiry and add: %s", where, m)}
+				}
 			}
 		}
 	})
@@ -305,11 +332,17 @@ func enumC05(tier string) []Plan {
 						g := newGen(uint64(0xC05000 + id))
 						key := string(bytes.Repeat([]byte("k"), kl))
 						p := Plan{Prop: "C05", Seed: uint64(0xC05000 + id), X: map[string]int64{"lose": mask, "chunks": int64(n), "gat": gat}, XS: map[string]string{"key": key}}
+						var ttl uint32
+						if id%3 == 0 {
+							// every write carries a lifetime: what remains after it has passed?
+							ttl = 50
+							p.X["ttl"] = 50
+						}
 						if prev >= 0 {
-							op := wire.Op{Kind: "set", Key: key, Data: c05Value(g, kl, prev, g.p(1, 2)), Flags: 7, Opaque: 1}
+							op := wire.Op{Kind: "set", Key: key, Data: c05Value(g, kl, prev, g.p(1, 2)), Flags: 7, TTL: ttl, Opaque: 1}
 							p.Steps = append(p.Steps, Step{Op: &op})
 						}
-						op := wire.Op{Kind: "set", Key: key, Data: c05Value(g, kl, n, g.p(1, 2)), Flags: 9, Opaque: 2}
+						op := wire.Op{Kind: "set", Key: key, Data: c05Value(g, kl, n, g.p(1, 2)), Flags: 9, TTL: ttl, Opaque: 2}
 						p.Steps = append(p.Steps, Step{Op: &op})
 						out = append(out, p)
 					}
@@ -373,7 +406,7 @@ func genC05(seed uint64, tier string) Plan {
 func init() {
 	register(&Prop{
 		ID: "C05", Gen: genC05, Exec: execC05, Enumerate: enumC05, Level: "fault_enumeration",
-		Rule:       "(a) fault = loss of backend entries. For key lengths {1, 10, 100}, n = 0..6 chunks, no earlier value / an earlier value of 1 chunk / of n+2 chunks, every non-empty subset of {metadata, chunk 0..n-1} is removed from the simulated backend and the key is read through the real chunked handler by get and by gat, then read again (thorough: all 2^(n+1)-1 subsets for every n; quick: all for n <= 4, a quarter for n = 5, 6, half for key length 100). (b) seeded interleavings: two writer tasks (values of different chunk counts, unique contents, different flags) and one or two reader tasks, in a third of the runs also a task that appends / prepends 1-2 unique payloads and reads, each on its own handler + backend connection, same key; the kernel chooses among task starts, individual backend requests and reply segments. Oracle: every read returns a miss or exactly the bytes and flags of one single set (with appends / prepends in the run: of one single set with a selection of the payloads applied whole). Every case is non-trivial; distinct = distinct plan hash",
+		Rule:       "(a) fault = loss of backend entries. For key lengths {1, 10, 100}, n = 0..6 chunks, no earlier value / an earlier value of 1 chunk / of n+2 chunks, every non-empty subset of {metadata, chunk 0..n-1} is removed from the simulated backend and the key is read through the real chunked handler by get and by gat, then read again; in a third of the cases every write carries a lifetime, and after it (and the gat's) has passed an add must succeed and be read back whole (thorough: all 2^(n+1)-1 subsets for every n; quick: all for n <= 4, a quarter for n = 5, 6, half for key length 100). (b) seeded interleavings: two writer tasks (values of different chunk counts, unique contents, different flags) and one or two reader tasks, in a third of the runs also a task that appends / prepends 1-2 unique payloads and reads, each on its own handler + backend connection, same key; the kernel chooses among task starts, individual backend requests and reply segments. Oracle: every read returns a miss or exactly the bytes and flags of one single set (with appends / prepends in the run: of one single set with a selection of the payloads applied whole). Every case is non-trivial; distinct = distinct plan hash",
 		Real:       realChunked,
 		Stub:       stubChunked,
 		FaultKinds: []string{"entry_loss"},
